@@ -554,4 +554,35 @@ never run out before the text does). -/
 theorem parse_consumes (n : Nat) (s : Str) (t : Ast) (r : Str) (h : pExpr n s = some (t, r)) : r.length ≤ s.length :=
   pExpr_shrinks n s t r h
 
+/-! ### audit round 6 (cross-audit by b-c36): the precedence theorems instantiated on concrete operands — their hypotheses
+    (WF, level ≤ 1, compiling arguments) hold together, and the parsed tree is the one the statement names -/
+private def aQ : C := .atom [] (.unary ['q'])
+private def aS : C := .atom [] (.unary ['s'])
+private def aC : C := .atom [] (.int ['c'] [' '] ['2', '0', '0'])
+private def aH : C := .atom [] (.rex ['h'] [' '] (.quoted '\'' [.raw 'x', .raw ' ', .raw 'y']))
+private def okAll : Str → Str → Bool := fun _ _ => true
+
+example : aQ.WF ∧ aS.WF ∧ aC.WF ∧ aH.WF := by
+  simp [aQ, aS, aC, aH, C.WF, AtomC.WF, Arg.WF, ItemsWF, QItem.WF, AllWs, AllDigit]
+  decide
+example : aQ.level ≤ 1 ∧ aC.level ≤ 1 ∧ aH.level ≤ 1 := by decide
+example : argsOk okAll aQ.ast = true ∧ argsOk okAll aC.ast = true ∧ argsOk okAll aH.ast = true := by decide +kernel
+-- `!~q &~c 200` : (not q) and c, never not (q and c)
+example : parse okAll ('!' :: aQ.render ++ ([' '] ++ '&' :: aC.render))
+    = some (.and [.not (.unary ['q']), .int ['c'] 200]) := by rfl
+-- `~q &~s |~h 'x y'` : (q and s) or h;   `~q |~s &~h 'x y'` : q or (s and h)
+example : parse okAll (aQ.render ++ ([' '] ++ '&' :: aS.render) ++ ([' '] ++ '|' :: aH.render))
+    = some (.or [.and [.unary ['q'], .unary ['s']], .rex ['h'] ['x', ' ', 'y']]) := by rfl
+example : parse okAll (aQ.render ++ ([' '] ++ '|' :: (aS.render ++ ([' '] ++ '&' :: aH.render))))
+    = some (.or [.unary ['q'], .and [.unary ['s'], .rex ['h'] ['x', ' ', 'y']]]) := by rfl
+-- juxtaposition is outermost: `~q ~s |~c 200` : q and (s or c)
+example : parse okAll (aQ.render ++ ([' '] ++ (aS.render ++ ([' '] ++ '|' :: aC.render))))
+    = some (.and [.unary ['q'], .or [.unary ['s'], .int ['c'] 200]]) := by rfl
+-- and the verdicts differ from the wrong reading on a valuation: q = false, c = true:  (!q & c) = true but !(q & c) … also true;
+-- q = true, c = false separates them: (!q & c) = false, !(q & c) = true
+example : eval (Flow := Unit) ⟨fun c _ => c == ['q'], fun _ _ _ => false, fun _ _ _ => false⟩
+      (.and [.not (.unary ['q']), .int ['c'] 200]) ()
+    ≠ eval (Flow := Unit) ⟨fun c _ => c == ['q'], fun _ _ _ => false, fun _ _ _ => false⟩
+      (.not (.and [.unary ['q'], .int ['c'] 200])) () := by decide +kernel
+
 end MitmVerif.Props.C42
